@@ -1149,7 +1149,7 @@ def broadcast_and_apply(  # noqa: C901
                     nextinputs.append(x)
 
             isscalar = []
-            out = apply(broadcast_pack(nextinputs, isscalar), 0, None)
+            out = apply(broadcast_pack(nextinputs, isscalar), 0, user)
             assert isinstance(out, tuple)
             return tuple(broadcast_unpack(x, isscalar) for x in out)
 
@@ -1164,7 +1164,7 @@ def broadcast_and_apply(  # noqa: C901
             outputs = []
             for part_inputs in ak.partition.iterate(sample.numpartitions, nextinputs):
                 isscalar = []
-                part = apply(broadcast_pack(part_inputs, isscalar), 0, None)
+                part = apply(broadcast_pack(part_inputs, isscalar), 0, user)
                 assert isinstance(part, tuple)
                 outputs.append(tuple(broadcast_unpack(x, isscalar) for x in part))
 
